@@ -15,7 +15,10 @@
       `Renderable` (`parseDocH_final`, `docH_render_total`: ATX / setext levels in range —
       `parseBlocksH_wf`, the well-formedness of the block tree lifted to the ten-rule engine —, no
       placeholder left — `parseInlineH_vals`, the value invariant lifted to the extended inline chain).
-  (c) `doc_totalH_flat`: see the section.
+  (c) `docH_total_of_inline` (total relative to the inline runs), `docH_total_of_docMemoSafeH` (executable check,
+      any chain), `doc_totalH_flat_of_tables`, `docH_tables_mapOK` (placeholder tables well formed: the geometric
+      invariant lifted to the ten-rule engine), `doc_totalH_flat` (tab-free sources; ONE residual hypothesis: the
+      placeholder contents within the inline size bound — OPEN block in the section).
   (d) `renderDocH_raw_only_from_html`: every `raw` event of the rendering is the content of an html
       node of the rendered tree; with both html rules off there is none (`renderDocH_no_raw`).
   (e) `parseDocH_cr`, `renderDocH_cr`: LF ↦ CR invariance (sourcepos off), an equation.
@@ -746,14 +749,11 @@ example : renderDocH false (exFlatH false 100) exDoc =
     .ok "<p>a <b>c</b></p>\n<div>\n*x*\n</div>\n<blockquote>\n<!-- c -->\n</blockquote>\n".toList := by
   decide +kernel
 -- `doc_totalH_flat` on the example: every hypothesis holds (the residual `hlen` by evaluation)
-def allLenB (mn : Nat) : Block.BNode → Bool
-  | ⟨k, _, cs⟩ => (match k with | .inlineRoot c _ => decide (2 * InlineOps.byteLen c + mn < 2 ^ 31 - 1) | _ => true) &&
-      cs.attach.all (fun ⟨c, _⟩ => allLenB mn c)
-
 example : BlockH.hasParaH (exFlatH false 100).blockChain = true ∧ '\t' ∉ exDoc ∧
     4 * Lines.byteLen exDoc + 8 < 2147483648 ∧
     (match BlockH.parseBlocksH (exFlatH false 100).blockCfg exDoc with
-     | .ok (root, _) => allLenB 100 root | .error _ => false) = true := by decide +kernel
+     | .ok (root, _) => placeholdersB (fun c _ => decide (2 * InlineOps.byteLen c + 100 < 2 ^ 31 - 1)) root
+     | .error _ => false) = true := by decide +kernel
 
 -- (d): the raw events of the example are the three html contents, in order
 example : (match parseDocH (exCfgH false 100) exDoc with
